@@ -17,6 +17,7 @@ import (
 	"encoding/json"
 	"flag"
 	"fmt"
+	neturl "net/url"
 	"os"
 	"os/exec"
 	"reflect"
@@ -89,6 +90,15 @@ func sharedSchema() *jsonapi.Schema {
 	t10 := softType("t10", fields10, kindMap{})
 	t10.NewFunc = func() jsonapi.Resource { return jsonapi.Wrap(reflect.New(st10).Interface()) }
 	must(s.AddType(*t10))
+	// a soft type in which an attribute and a relationship carry the same name (Schema.AddAttr and
+	// AddRel build it without complaint): a schema like any other for the read-only operations
+	must(s.AddType(jsonapi.Type{Name: "t11"}))
+	must(s.AddAttr("t11", jsonapi.Attr{Name: "dup", Type: jsonapi.AttrTypeString}))
+	must(s.AddAttr("t11", jsonapi.Attr{Name: "k", Type: jsonapi.AttrTypeInt}))
+	if err := s.AddRel("t11", jsonapi.Rel{FromType: "t11", FromName: "dup", ToOne: true, ToType: "t1"}); err != nil {
+		// (a library that refuses the second declaration has no such type: nothing to share)
+		s.RemoveAttr("t11", "dup")
+	}
 	return s
 }
 
@@ -189,6 +199,13 @@ func sharedOp(s *jsonapi.Schema, op string, p int) {
 		if str := u.String(); !strings.Contains(str, "filter=lbl-"+id+"&") && !strings.HasSuffix(str, "filter=lbl-"+id) {
 			panic("the text of the URL carries another request's filter label: " + str)
 		}
+		// a filter that is a tree of conditions, three levels deep, with this request's own value in it
+		tree := `{"o":"and","v":[{"f":"a","o":"=","v":"` + id + `"},{"o":"or","v":[{"f":"a","o":"!=","v":"q"},{"o":"and","v":[{"o":"or","v":[]}]}]}]}`
+		u2, err := jsonapi.NewURLFromRaw(s, "/t1?filter="+neturl.QueryEscape(tree))
+		must(err)
+		if u2.Params.Filter == nil || u2.Params.Filter.Op != "and" || !strings.Contains(u2.String(), id) {
+			panic("the filter tree of the URL is not the request's own")
+		}
 	case "UnmarshalDocument":
 		pl := `{"data":[{"type":"t1","id":"` + id + `","meta":{"owner":"` + id + `"},"attributes":{"a":"x","n":3},"relationships":{"o":{"data":{"type":"t2","id":"u"}},"m":{"data":[{"type":"t2","id":"v"}]}}}],` +
 			`"included":[{"type":"t2","id":"u","attributes":{"b":"y"}},{"type":"t3","id":"w","attributes":{"c":null}},` +
@@ -244,7 +261,7 @@ func sharedOp(s *jsonapi.Schema, op string, p int) {
 			panic("cutting down a partial resource reached the schema")
 		}
 	case "NewResource":
-		for _, name := range []string{"t1", "t2", "t3", "t4", "t5", "t7"} {
+		for _, name := range []string{"t1", "t2", "t3", "t4", "t5", "t7", "t11"} {
 			typ := s.GetType(name)
 			r := typ.New()
 			r.Set("id", id)
